@@ -81,6 +81,7 @@ func loadRepo(dir string, overlay map[string][]byte) (*Repo, error) {
 			}
 		}
 	}
+	repoFuncs = r.funcs
 	cs, err := loadContractsDir(dir)
 	if err != nil {
 		return nil, err
